@@ -92,6 +92,9 @@ type Features struct {
 	Paren    bool     `json:"paren,omitempty"`     // parenthesise options
 	Extra    string   `json:"extra,omitempty"`     // free-form marker for special templates
 	Surround bool     `json:"surround,omitempty"`  // add unrelated declarations and statements around the directive
+	// DebugImp "other": the file imports a user package named debug (the
+	// generated code needs runtime/debug)
+	DebugImp string `json:"debug_imp,omitempty"`
 	// IdentArg: the IdentPos-th eligible directive argument (Params value,
 	// Concurrency/ContinueOnError value, collection, emitter; -1 = the last
 	// one) is passed as a bare identifier of this name, declared in the
